@@ -179,7 +179,7 @@ def r044(prog, chk):
         w = wl[0]
         t = w.test
         last = [s for s in A.stmts_of(h.node) if isinstance(s, ast.Assign) and T(s.value) == f"{advl}[-1]"]
-        ok = len(last) == 1 and isinstance(t, ast.Compare) and isinstance(t.ops[0], ast.Eq) and T(t.left) == f"{advl}[{n} - 2]" and T(t.comparators[0]) == last[0].targets[0].id
+        ok = len(last) == 1 and isinstance(t, ast.Compare) and isinstance(t.ops[0], ast.Eq) and {T(t.left), T(t.comparators[0])} == {f"{advl}[{n} - 2]", last[0].targets[0].id}
         dec = [s for s in w.body if isinstance(s, ast.AugAssign) and isinstance(s.op, ast.Sub) and T(s.target) == n and A.is_const(s.value, 1)]
         stop = [s for s in w.body if isinstance(s, ast.If) and any(isinstance(x, ast.Break) for x in s.body) and T(s.test) in (f"{n} <= 1", f"{n} == 1", f"{n} < 2")]
         ok = ok and len(dec) == 1 and len(stop) == 1 and w.body.index(dec[0]) < w.body.index(stop[0])
